@@ -310,6 +310,12 @@ def cmd_check(pid, tier, seed):
             continue
         budget = p[tier]
         count, maxsize, workers = budget["count"], budget.get("maxsize", 100), budget.get("workers", 8)
+        if count == "enum":
+            # finite space: the harness says how many cases enumerate it completely
+            lst = subprocess.run([exe, "list"], stdout=subprocess.PIPE, text=True, env=env_for_run()).stdout
+            count = next((int(l.split()[1]) for l in lst.splitlines() if l.split() and l.split()[0] == sub), 0)
+            if count == 0:
+                health_errors.append("%s: enumeration size unknown" % sub)
         share = (count + workers - 1) // workers
         seg_timeout = budget.get("timeout", 1500 if tier == "quick" else 6 * 3600)
         extra = budget.get("extra", [])
@@ -400,7 +406,8 @@ def cmd_check(pid, tier, seed):
               coverage=dict(evaluations=merged["evaluations"], distinct_nontrivial=merged["distinct"],
                             nontrivial_evaluations=merged["nontrivial"], rule=RULES[pid], samples=samples,
                             class_distribution=merged["labels"], excluded_known=merged["excluded"], parts=merged["parts"],
-                            known_findings_reproduced=known_lines, notes=notes, exhaustive=bool(chk.get("exhaustive", False))),
+                            known_findings_reproduced=known_lines, notes=notes, exhaustive=bool(chk.get("exhaustive", False)),
+                            exhaustive_scope=chk.get("exhaustive_scope", "")),
               assumptions=ASSUMPTIONS.get(pid, []), wall_s=round(wall, 2), violations=len(confirmed))
     tmp = evpath + ".tmp"
     json.dump(ev, open(tmp, "w"), indent=1)
